@@ -54,10 +54,7 @@ func codecCheck(c *chk.Ctx, enforce string) {
 		c.Broken("%v", err)
 	}
 	defer w.Close()
-	stride := 2
-	if c.Thorough() {
-		stride = 1
-	}
+	stride := 1 // every construct x context in both tiers (the tiers differ in the value classes)
 	var cases []*codecCase
 	for i, raw := range raws {
 		if (i+int(c.Seed))%stride != 0 {
@@ -117,9 +114,9 @@ func codecCheck(c *chk.Ctx, enforce string) {
 		c.Broken("driver does not build: %s", firstN(bout, 1500))
 	}
 	c.Infof("%d cases (%d outside the accepted / buildable domain), driver built", len(cases), nSkipped)
-	modes := []int{0, 1, 2, 3, 4}
+	modes := []int{0, 1, 2, 3}
 	if c.Thorough() {
-		modes = []int{0, 1, 2, 3, 4, 5, 6, 7, 8, 9}
+		modes = []int{0, 1, 2, 3, 4, 5, 6, 7, 8, 9, 10, 11, 12, 13, 14, 15}
 	}
 	// ---- phase 1: codecs
 	var ops []drv.Op
@@ -475,6 +472,9 @@ func runInventory(c *chk.Ctx, module, cfg string, lines []string, consts map[str
 	f.Close()
 	if d := os.Getenv("VERIF_DUMP_TRACE"); d != "" {
 		b, _ := os.ReadFile(f.Name())
+		if _, err := os.Stat(d); err == nil {
+			d += ".2"
+		}
 		_ = os.WriteFile(d, b, 0o644)
 	}
 	cs := map[string]string{"Dev": trace.DevSet(c.Dev()), "Inventory": "TRUE"}
